@@ -191,9 +191,15 @@ pub fn c03_runs(tier: Tier) -> Vec<(HistCfg, Caps)> {
     match tier {
         Tier::Quick => {
             let b = build_menu(&[None, Some(2)], &[Some(1)], 1);
+            // buckets of up to 2 / 3 items: a budget can overshoot inside a bucket
+            let wide = build_menu(&[Some(2)], &[None, Some(3)], 1);
             for m in only_metric(&M7) {
                 runs.push((
                     cfg(m, 2, 4, b.clone(), vec![4, 1], obs.clone(), &format!("{}-d2", m.short())),
+                    caps(tier, 7, 0),
+                ));
+                runs.push((
+                    cfg(m, 2, 5, wide.clone(), vec![5, 0], obs.clone(), &format!("{}-d2-buckets", m.short())),
                     caps(tier, 7, 0),
                 ));
             }
